@@ -518,3 +518,59 @@ def rule_r2_bin(prog, rep, units, rid='R2-bin'):
                 if not ok:
                     rep.violation(rid, f, x.get('_line'), 'strdup:%s' % canon(e), '%s duplicates the binary payload %s as a string: the '
                                   'copy ends at the first NUL byte although the stored size is what callers are told' % (canon(x)[:50], canon(e)))
+
+
+SIZE_OF_PAYLOAD = {'name': ('namesize',), 'data': ('datasize', 'size')}
+
+
+def rule_r2_src(prog, rep, units, rid='R2-src'):
+    """A node's payload is duplicated / copied out with that node's own size field: qmemdup(X->p, L), memcpy(dst, X->p, L)
+    and malloc(L) feeding such a copy use L = X->psize (the size stored next to the payload), never a length that belongs to
+    something else (a lookup key, another node)."""
+    rep.rule(rid, 'a node payload (name/data) is copied with the size stored next to it in the same node')
+    for rel in units:
+        for f in sorted(prog.funcs_in(rel), key=lambda x: x.line or 0):
+            if f.body is None:
+                continue
+            for x in walk(f.body):
+                if x.get('kind') != 'CallExpr':
+                    continue
+                nm = prog.callee_name(x)
+                args = children(x)[1:]
+                if nm == 'qmemdup' and len(args) >= 2:
+                    src, ln = args[0], args[1]
+                elif nm in ('memcpy', 'memmove') and len(args) >= 3:
+                    src, ln = args[1], args[2]
+                else:
+                    continue
+                s0 = strip(src)
+                if s0.get('kind') != 'MemberExpr' or s0.get('name') not in SIZE_OF_PAYLOAD:
+                    continue
+                rec = (s0.get('_field') or ('',))[0]
+                if not rec.endswith('_obj_s'):
+                    continue
+                owner = canon(children(s0)[0])
+                want = ['%s%s%s' % (owner, '->' if s0.get('isArrow') else '.', sf) for sf in SIZE_OF_PAYLOAD[s0['name']]]
+                # does the record have that size field at all?
+                flds = {fl['name'] for u in prog.units for fl in u.record_fields.get(rec, [])}
+                want = [w for w, sf in zip(want, SIZE_OF_PAYLOAD[s0['name']]) if sf in flds]
+                if not want:
+                    continue
+                rep.instance(rid)
+                got = canon(strip(ln))
+                # a local that was assigned the size field counts as the field
+                ok = got in want
+                if not ok and strip(ln).get('kind') == 'DeclRefExpr':
+                    from .dataflow import ReachingDefs
+                    from .expr import var_init
+                    for y in walk(f.body):
+                        if y.get('kind') == 'VarDecl' and y.get('name') == got and var_init(y) is not None and canon(strip(var_init(y))) in want:
+                            ok = True
+                        if y.get('kind') == 'BinaryOperator' and y.get('opcode') == '=' and canon(children(y)[0]) == got \
+                                and canon(strip(children(y)[1])) in want:
+                            ok = True
+                rep.oblige(rid, ok, {'function': f.name, 'line': x.get('_line'), 'copy': canon(x)[:60], 'expected_length': want})
+                if not ok:
+                    rep.violation(rid, f, x.get('_line'), 'len:%s' % canon(s0), '%s copies %s with length %s; the size stored with that payload '
+                                  'is %s - a shorter length truncates the copy, a longer one reads past the stored block'
+                                  % (canon(x)[:50], canon(s0), got, ' / '.join(want)))
